@@ -338,6 +338,16 @@ def write_docs(workdir, seed, tier):
     for k, text in EXTRA.items():
         open(os.path.join(src, k + ".thrift"), "w").write(text)
         docs.append((k, os.path.join(src, k + ".thrift"), text, "thrift"))
+    # cross-file includes and namespaces: harness/inclcorpus (include names that are prefixes of one another, two includes with one
+    # file stem, a diamond, qualified types / enum members / constants as defaults, exceptions and service inheritance across files,
+    # two services whose names differ only in case in a file that has includes)
+    inc_src = os.path.join(HARNESS, "inclcorpus")
+    if os.path.isdir(inc_src):
+        inc_dst = os.path.join(src, "incl")
+        shutil.copytree(inc_src, inc_dst)
+        main = os.path.join(inc_dst, "main.thrift")
+        docs.append(("incl", main, "\n".join(f"// ---- {os.path.relpath(os.path.join(dp, f), inc_dst)}\n" + open(os.path.join(dp, f)).read()
+                                             for dp, _, fs in sorted(os.walk(inc_dst)) for f in sorted(fs)), "thrift"))
     r = random.Random(seed * 101 + 14)
     text = nesting_doc(r, tier)
     open(os.path.join(src, "nesting.thrift"), "w").write(text)
